@@ -107,6 +107,68 @@ theorem candidates_complete (p : P) :
     refine ⟨e, he, hid, ?_⟩
     rw [hs]; cases st <;> simp_all [notUnreachable]
 
+omit [DecidableEq P] in
+/-- an ascending, downward-closed selection from an ascending list is a prefix of it -/
+theorem downclosed_is_prefix {lt : P → P → Bool} (hirr : ∀ a, lt a a = false)
+    (hasym : ∀ a b, lt a b = true → lt b a = false) :
+    ∀ (l L : List P), l.Pairwise (fun a b => lt a b = true) → L.Pairwise (fun a b => lt a b = true) →
+      (∀ p ∈ L, p ∈ l) → (∀ q ∈ l, ∀ p ∈ L, lt q p = true → q ∈ L) → L = l.take L.length
+  | [], L, _, _, hsub, _ => by
+    cases L with
+    | nil => rfl
+    | cons b L' => exact absurd (hsub b (List.mem_cons_self ..)) (by simp)
+  | a :: l', [], _, _, _, _ => by simp
+  | a :: l', b :: L', hl, hL, hsub, hdown => by
+    have hl' := List.pairwise_cons.1 hl
+    have hL' := List.pairwise_cons.1 hL
+    have hba : b = a := by
+      rcases List.mem_cons.1 (hsub b (List.mem_cons_self ..)) with h | h
+      · exact h
+      · have hab := hl'.1 b h
+        have haL := hdown a (List.mem_cons_self ..) b (List.mem_cons_self ..) hab
+        rcases List.mem_cons.1 haL with h2 | h2
+        · exact h2.symm
+        · have := hL'.1 a h2
+          rw [hasym a b hab] at this; cases this
+    subst hba
+    have ih := downclosed_is_prefix hirr hasym l' L' hl'.2 hL'.2
+      (fun p hp => by
+        rcases List.mem_cons.1 (hsub p (List.mem_cons_of_mem _ hp)) with h | h
+        · subst h; have := hL'.1 p hp; rw [hirr] at this; cases this
+        · exact h)
+      (fun q hq p hp hqp => by
+        rcases List.mem_cons.1 (hdown q (List.mem_cons_of_mem _ hq) p (List.mem_cons_of_mem _ hp) hqp) with h | h
+        · subst h; have := hl'.1 q hq; rw [hirr] at this; cases this
+        · exact h)
+    simp only [List.length_cons, List.take_succ_cons]
+    rw [← ih]
+
+/-- Uniqueness: the result is the *only* list with the stated properties.  Any list of K (or, when fewer were
+    learned, all) learned non-failed peers that is strictly ascending and leaves out no nearer learned
+    non-failed peer is the list the lookup returns. -/
+theorem result_unique (ho : OrderOK cfg) (h : Reaches cfg accept stop seeds evs s) (L : List P)
+    (hasc : L.Pairwise (fun a b => cfg.lt a b = true))
+    (hsub : ∀ p ∈ L, p ∈ candidates cfg s.ps notUnreachable)
+    (hdown : ∀ q ∈ candidates cfg s.ps notUnreachable, ∀ p ∈ L, cfg.lt q p = true → q ∈ L)
+    (hlen : L.length = min cfg.K (candidates cfg s.ps notUnreachable).length) :
+    L = (result cfg s).peers := by
+  have hc := candidates_ascending cfg ho s.ps notUnreachable (reaches_inv h).nodup
+  have := downclosed_is_prefix ho.irrefl ho.asymm _ L hc hasc hsub hdown
+  rw [this, hlen, result_eq_topK]
+  simp [List.take_eq_take_iff]
+
+/-- … and the result itself meets the hypotheses of `result_unique` (they are satisfiable in every reachable state) -/
+theorem result_meets_unique_hyps (ho : OrderOK cfg) (h : Reaches cfg accept stop seeds evs s) :
+    (∀ p ∈ (result cfg s).peers, p ∈ candidates cfg s.ps notUnreachable) ∧
+    (∀ q ∈ candidates cfg s.ps notUnreachable, ∀ p ∈ (result cfg s).peers, cfg.lt q p = true → q ∈ (result cfg s).peers) ∧
+    (result cfg s).peers.length = min cfg.K (candidates cfg s.ps notUnreachable).length := by
+  have hc := candidates_ascending cfg ho s.ps notUnreachable (reaches_inv h).nodup
+  refine ⟨fun p hp => List.mem_of_mem_take hp, fun q hq p hp hqp => ?_, by rw [result_eq_topK, List.length_take]⟩
+  by_cases hin : q ∈ (result cfg s).peers
+  · exact hin
+  · have := (take_ascending_before_rest _ hc cfg.K q hq hin).2 p hp
+    rw [ho.asymm q p hqp] at this; cases this
+
 /-! non-vacuity: K = 2, a liar naming self (9) and a duplicate, one failure, answers out of order -/
 def exCfg : Cfg Nat := { K := 2, α := 2, β := 2, self := 9, lt := fun a b => a < b }
 def exEvs : List (Ev Nat) :=
